@@ -68,6 +68,8 @@ def special_sequences(rng, maxn):
             out.append("".join(s))
             out.append(a * (big // 2) + b * small + a * (big - big // 2))
     out.append("KKKKEEEE")
+    # long chains without any charged residue, one charged residue in a long chain
+    out += [("GSQ" * 120)[:300], "N" * 257, ("GSQ" * 120)[:299] + "K"]
     out.append("K" + "E" * 18 + "G")
     out.append("E" * 9 + "K" + "E" * 9 + "G")
     out += ["Q" * 190 + "K" + "N" * 9, "S" * 100 + "E" + "G" * 180 + "K" + "Q" * 99]
